@@ -4,6 +4,7 @@ import (
 	"context"
 	"fmt"
 	stdslog "log/slog"
+	"strings"
 
 	"github.com/hedzr/is"
 	"github.com/hedzr/logg/slog"
@@ -244,8 +245,14 @@ func c01table(c *Ctx) {
 			c.R.Distinct("debug_mode_histories", st.name)
 			for _, kd := range kinds {
 				for _, L := range levels {
-					// set the level without the debug side effect disturbing the model
+					// the level is set while the process-wide debug mode is the OPPOSITE of what this history ends in, and
+					// the mode changes afterwards: admission is decided per call, not when the level was set
+					is.SetDebugMode(!st.d)
 					kd.l.SetLevel(L)
+					st.do()
+					if strings.Contains(st.name, "package SetLevel") {
+						kd.l.SetLevel(L) // the package-level SetLevel also sets the level of whatever logger is the default one right now
+					}
 					d := st.d
 					if L == slog.DebugLevel && !st.d {
 						is.SetDebugMode(false) // SetLevel(Debug) switched the sticky process-wide mode on; this history wants it off
@@ -296,6 +303,30 @@ func c01table(c *Ctx) {
 								c.R.Add("records_emitted", 1)
 							} else {
 								c.R.Add("calls_silent", 1)
+							}
+							// a Panic / Fatal call that is NOT admitted must also stay silent (and return) when it would be
+							// allowed to terminate: the no-interrupt flag is cleared for this one call. If the gate wrongly lets
+							// a Fatal through, the process exits and the driver reports the journalled cell.
+							if !want && (r == slog.PanicLevel || r == slog.FatalLevel) && !e.verbose {
+								log.Reset()
+								slog.RemoveFlags(slog.LnoInterrupt)
+								panicked := ""
+								func() {
+									defer func() {
+										if x := recover(); x != nil {
+											panicked = fmt.Sprint(x)
+										}
+									}()
+									c.R.JournalNote(fmt.Sprintf("no-interrupt flag cleared: %s %s L=%d r=%d", kd.name, e.name, L, r))
+									e.call(kd.l, ctx, r)
+								}()
+								slog.AddFlags(slog.LnoInterrupt)
+								cells++
+								if log.Len() > 0 || panicked != "" {
+									c.R.Violation(idx, "gate", "C01/gate/"+e.name+"/emitted-but-not-admitted/interrupt-allowed",
+										fmt.Sprintf("%s on %s with the no-interrupt flag cleared: logger level %v, severity %v: %d write(s), panic %q; the call is not admitted", e.name, kd.name, L, r, log.Len(), panicked),
+										map[string]any{"customs": cdesc, "entry": e.name, "logger": kd.name, "level": int(L), "severity": int(r), "history": st.name})
+								}
 							}
 						}
 					}
